@@ -333,7 +333,8 @@ func cutElemSubscript(arg string) (name, sub string, ok bool) {
 
 // unsetElem unsets a single element of an indexed or associative array, like
 // `unset 'a[3]'`. Unsetting an indexed array element may leave a hole.
-func (r *Runner) unsetElem(name, sub string) {
+// It reports whether the subscript was valid.
+func (r *Runner) unsetElem(name, sub string) bool {
 	vr := r.lookupVar(name)
 	if n, v := vr.Resolve(r.writeEnv); n != "" {
 		name, vr = n, v
@@ -342,16 +343,16 @@ func (r *Runner) unsetElem(name, sub string) {
 	case expand.Indexed:
 		if sub == "@" || sub == "*" {
 			r.delVar(name)
-			return
+			return true
 		}
 		expr, err := syntax.NewParser().Arithmetic(strings.NewReader(sub))
 		if err != nil {
 			r.errf("unset: %s[%s]: bad array subscript\n", name, sub)
 			r.exit.code = 1
-			return
+			return false
 		}
 		if expr == nil {
-			return // an empty subscript like `unset 'a[]'` is a no-op
+			return true // an empty subscript like `unset 'a[]'` is a no-op
 		}
 		k := r.arithm(expr)
 		if k < 0 {
@@ -359,7 +360,7 @@ func (r *Runner) unsetElem(name, sub string) {
 			if k += internal.IndexedMax(vr.List, vr.Indexes) + 1; k < 0 {
 				r.errf("unset: %s[%s]: bad array subscript\n", name, sub)
 				r.exit.code = 1
-				return
+				return false
 			}
 		}
 		// TODO: only clone when inside a subshell and getting a var from outside for the first time
@@ -370,7 +371,7 @@ func (r *Runner) unsetElem(name, sub string) {
 	case expand.Associative:
 		if sub == "@" || sub == "*" {
 			r.delVar(name)
-			return
+			return true
 		}
 		// TODO: only clone when inside a subshell and getting a var from outside for the first time
 		vr.Map = maps.Clone(vr.Map)
@@ -383,8 +384,10 @@ func (r *Runner) unsetElem(name, sub string) {
 		} else {
 			r.errf("unset: %s: not an array variable\n", name)
 			r.exit.code = 1
+			return false
 		}
 	}
+	return true
 }
 
 func (r *Runner) setFunc(name string, body *syntax.Stmt) {
